@@ -3,7 +3,7 @@
 From Coq Require Import ZArith NArith Bool List.
 From ZV.Gen Require Import Gen_Sizes.
 From ZV.Index Require Import Window Overflow.
-From ZV.Det Require Import ResetModel CwkspClean RowSalt OptStats MtPartition.
+From ZV.Det Require Import ResetModel CwkspClean RowSalt OptStats MtPartition StreamPartition BlockState DictMode.
 Import ListNotations.
 Local Open Scope Z_scope.
 
@@ -12,7 +12,7 @@ Definition bz (z : Z) : bool := negb (z =? 0).
 Definition nthz (l : list Z) (i : nat) : Z := nth i l 0.
 
 (* 1: the match-state part of ZSTD_resetCCtx_internal on an observed previous state.
-   args: init idx lowLimit dictLimit ntu lde dms lls salt entropy loadedDictSize resized row
+   args: init idx lowLimit dictLimit ntu lde dms lls salt entropy loadedDictSize resized row cdictCopied
    ->    doReset idx' lowLimit' dictLimit' ntu' lde' dms' lls' salt' *)
 Definition d_reset (a : list Z) : list Z :=
   let w := mkWindow (nthz a 1) 0 0 (nthz a 3) (nthz a 2) 0 in
@@ -20,7 +20,8 @@ Definition d_reset (a : list Z) : list Z :=
   let p := mkR (if bz (nthz a 11) then Some [] else None) (nthz a 10) 0 0 0 (bz (nthz a 12)) in
   let r := reset m p in
   [zb (needs_index_reset m p); E r; lowLimit (m_window r); dictLimit (m_window r); m_nextToUpdate r;
-   m_loadedDictEnd r; zb (m_dms r); m_litLengthSum r; m_hashSalt r].
+   m_loadedDictEnd r; zb (m_dms r); m_litLengthSum r;
+   if bz (nthz a 13) then salt_after_cdict_copy m p else m_hashSalt r].
 
 (* 2: the workspace pointers through the reservation sequence of ZSTD_resetCCtx_internal.
    args: start size oe te tve as ios phase | resized newStart newSize isStaticObjs indexReset t1 t2 t3 tagBytes topBytes
@@ -89,6 +90,48 @@ Definition d_hash (a : list Z) : list Z :=
   map Z.of_N [row_of (hashS w hb mx sl); tag_of (hashS w hb mx sl); row_of (hashS w hb mx 0); tag_of (hashS w hb mx 0);
               salt_row w hb sl; salt_tag w hb sl].
 
+
+(* 8: the chunks of buffered streaming under the never-blocking oracle (everything compressed straight into dst);
+   [shortcut] = 1: the capacity always allows the e_end shortcut.
+   args: blockSize inBuffSize firstTarget shortcut n1 dir1 n2 dir2 ...
+   -> per piece: (bytes handed to the block compressor so far, bytes left in the input buffer), then
+      number of chunks, size of the last chunk, its last flag; [-1] if the model does not complete *)
+Definition sum_chunks (l : list (Z * bool)) : Z := fold_left (fun a c => a + fst c) l 0.
+Fixpoint stream_trace (B IS t0 : Z) (sc : bool) (s : sst) (ps : list (Z * Z)) : list Z :=
+  match ps with
+  | [] => match rev (s_chunks s) with
+          | [] => [0; 0; 0]
+          | c :: _ => [Z.of_nat (length (s_chunks s)); fst c; zb (snd c)]
+          end
+  | (n, dir) :: t =>
+      let envs := repeat (mkSE sc true true) (8 + Z.to_nat (n / Z.max 1 B)) in
+      match s_piece 4 B IS t0 s n dir (frames_done s) envs with
+      | Some (s1, _) => [sum_chunks (s_chunks s1); s_pos s1 - s_toc s1] ++ stream_trace B IS t0 sc s1 t
+      | None => [-1]
+      end
+  end.
+Definition d_stream (a : list Z) : list Z :=
+  stream_trace (nthz a 0) (nthz a 1) (nthz a 2) (bz (nthz a 3)) (s_init (nthz a 2) []) (pairs (skipn 4 a)).
+
+(* 9: ZSTD_reset_compressedBlockState on an arbitrary previous state -> rep0 rep1 rep2 huf of ml ll *)
+Definition d_blockstate (a : list Z) : list Z :=
+  cb_fields (reset_cbstate (mkCB [nthz a 0; nthz a 1; nthz a 2] (nthz a 3) (nthz a 4) (nthz a 5) (nthz a 6))).
+
+(* 10: the LDM part of the reset -> end index, lowLimit, dictLimit, loadedDictEnd, number of non-zero table bytes *)
+Definition d_ldm (a : list Z) : list Z :=
+  ldm_fields (reset_ldm (mkLdm (nthz a 0) (nthz a 1) (nthz a 2) (nthz a 3) [1; 2; 3] [4; 5]) 16 4).
+
+(* 11: the constants of Det/DictMode.v -> srcsize cutoff, multiplier, the 10 attach cutoffs, the 4 preference codes *)
+Definition d_dict_consts (a : list Z) : list Z :=
+  [USE_CDICT_PARAMS_SRCSIZE_CUTOFF; USE_CDICT_PARAMS_DICTSIZE_MULTIPLIER] ++ attachDictSizeCutoffs ++
+  [dictDefaultAttach; dictForceAttach; dictForceCopy; dictForceLoad].
+
+(* 12: attach / copy / load.  args: dictContentSize compressionLevel strategy dedicatedDictSearch pledged(-1 = unknown)
+       attachDictPref forceWindow -> 0 load | 1 attach | 2 copy *)
+Definition d_dict_mode (a : list Z) : list Z :=
+  let pledged := if nthz a 4 <? 0 then CONTENTSIZE_UNKNOWN else nthz a 4 in
+  [mode_code (dict_mode (mkCD (nthz a 0) (nthz a 1) (nthz a 2) (bz (nthz a 3))) pledged (nthz a 5) (bz (nthz a 6)))].
+
 Definition dispatch (opcode : Z) (a : list Z) : list Z :=
   if opcode =? 1 then d_reset a
   else if opcode =? 2 then d_cwksp a
@@ -97,4 +140,9 @@ Definition dispatch (opcode : Z) (a : list Z) : list Z :=
   else if opcode =? 5 then d_mt_jobs a
   else if opcode =? 6 then d_opt a
   else if opcode =? 7 then d_hash a
+  else if opcode =? 8 then d_stream a
+  else if opcode =? 9 then d_blockstate a
+  else if opcode =? 10 then d_ldm a
+  else if opcode =? 11 then d_dict_consts a
+  else if opcode =? 12 then d_dict_mode a
   else [].
